@@ -86,6 +86,20 @@ class SymStrPairList(object):
         raise EngineError('iteration over the symbolic math delimiter table needs the loop contract')
 
 
+class StrSetAbs(object):
+    """a set/dict keyed by strings of which only membership is used: unknown membership per (syntactically
+    distinct) string"""
+    def __init__(self, name):
+        self.name = name
+
+    def pyvc_contains(self, it, item):
+        memo = it.ctx.ghost.setdefault('strset:' + self.name, {})
+        k = V.str_key(item) if is_str(item) else repr(item)
+        if k not in memo:
+            memo[k] = it.ctx.fresh_bool(self.name + '.has')
+        return memo[k]
+
+
 def charset(it, name):
     f = z3.Function(name, z3.IntSort(), z3.BoolSort())
     return CharSet(lambda code: f(zint(code)), name)
@@ -94,12 +108,11 @@ def charset(it, name):
 def mk_specials_spec(it, hint):
     chars = it.fresh_str(hint + '.specials_chars')
     it.ctx.assume(zint(V.slen(chars)) >= 1)
-    o = new_obj(it, SPECIALS, {'specials_chars': chars}, tag=hint)
-    o.open = True
-    return o
+    from contracts.contextdb import SPEC_METHODS
+    return V.AbsVal(it.ctx.fresh_int(hint), 'spec', attrs={'specials_chars': chars}, methods=SPEC_METHODS)
 
 
-def mk_parsing_state(it, name='parsing_state', with_context=None):
+def mk_parsing_state(it, name='parsing_state', with_context=None, db_inv=False):
     """A ParsingState satisfying PS_inv with every switch symbolic."""
     ctx = it.ctx
     f = {}
@@ -118,6 +131,7 @@ def mk_parsing_state(it, name='parsing_state', with_context=None):
     f['_latex_group_delimchars_by_open'] = charset(it, name + '._latex_group_delimchars_by_open')
     f['_latex_group_delimchars_close'] = charset(it, name + '._latex_group_delimchars_close')
     f['_math_all_delims_by_len'] = SymStrPairList(it, name + '._math_all_delims_by_len')
+    f['_math_delims_info_by_open'] = StrSetAbs(name + '._math_delims_info_by_open')
     # expected closing delimiter: None, or {'close_delim': non-empty str, 'tok': kind}; decided when first read
     def expect(it2):
         c = it2.ctx
@@ -133,12 +147,12 @@ def mk_parsing_state(it, name='parsing_state', with_context=None):
         if it2.ctx.choose(2, 'latex_context present') == 0:
             return None
         from contracts.contextdb import mk_db
-        return mk_db(it2, name='latex_context', unknowns=False)
+        return mk_db(it2, name=name + '.latex_context', unknowns=False, assume_inv=db_inv)
     if with_context is None:
         f['latex_context'] = V.LazyField(context)
     elif with_context:
         from contracts.contextdb import mk_db
-        f['latex_context'] = mk_db(it, name='latex_context', unknowns=False)
+        f['latex_context'] = mk_db(it, name=name + '.latex_context', unknowns=False, assume_inv=db_inv)
     else:
         f['latex_context'] = None
     o = new_obj(it, PS, f, tag=name)
@@ -179,7 +193,7 @@ def register(reg):
     units = {}
 
     reg.spec('all_space')(lambda it, x: all_space(it, x))
-    reg.spec('is_obj')(lambda it, x: isinstance(x, Obj))
+    reg.spec('is_obj')(lambda it, x: isinstance(x, (Obj, V.AbsVal)))
     reg.spec('newlines')(lambda it, x: it.B.str_count(it, x, '\n'))
     reg.spec('delim_at')(lambda it, ps, i: ps.fields['_math_all_delims_by_len'].delim(i))
     reg.spec('tok_at')(lambda it, ps, i: ps.fields['_math_all_delims_by_len'].tok(i))
@@ -483,7 +497,9 @@ def register(reg):
         """a token as described by TOKEN_POST (used where peek_token is assumed)"""
         v = env.vars
         rd = v['self']
-        s, p0 = rd.fields['s'], rd.fields['_pos']
+        # the reader position at the call (modifies clauses are havoced before the result is made)
+        p0 = v.get('__old__', {}).get('self._pos', rd.fields['_pos'])
+        s = rd.fields['s']
         ctx = it.ctx
         a = ctx.fresh_int('tok_pos')
         e = ctx.fresh_int('tok_end')
@@ -500,12 +516,11 @@ def register(reg):
         if kind == 1:      # char
             return mk_token(it, 'char', V.sslice(ctx, s, a, e), a, e, V.sslice(ctx, s, p0, a))
         # everything else: braces, math delimiters, specials, environments
-        tk = it.fresh_str('tokkind')
-        for lit in ('char', 'macro', 'comment'):
-            ctx.assume(z_not(V.seq_eq(ctx, tk, lit)))
-        if ctx.choose(2, 'specials token') == 1:
+        OTHER = ['specials', 'brace_open', 'brace_close', 'mathmode_inline', 'mathmode_display', 'begin_environment',
+                 'end_environment']
+        tk = OTHER[ctx.choose(len(OTHER), 'other token kind')]
+        if tk == 'specials':
             arg = mk_specials_spec(it, 'sspec')
-            tk = 'specials'
         else:
             arg = it.fresh_str('tokarg')
         return mk_token(it, tk, arg, a, e, V.sslice(ctx, s, p0, a))
@@ -538,6 +553,11 @@ def register(reg):
         ('specials-token-content',
          "implies(is_obj(result.arg), result.tok == 'specials' and (result.arg.specials_chars == '\\n\\n' or "
          "result.arg.specials_chars == self.s[result.pos:result.pos_end]))"),
+        ('known-token-kind',
+         "result.tok == 'char' or result.tok == 'macro' or result.tok == 'comment' or result.tok == 'specials' or "
+         "result.tok == 'brace_open' or result.tok == 'brace_close' or result.tok == 'mathmode_inline' or "
+         "result.tok == 'mathmode_display' or result.tok == 'begin_environment' or result.tok == 'end_environment'"),
+        ('specials-token-carries-its-spec', "implies(result.tok == 'specials', is_obj(result.arg))"),
         ('environment-token-content',
          "implies(result.tok == 'begin_environment' or result.tok == 'end_environment', "
          "self.s[result.pos] == parsing_state.macro_escape_char and "
